@@ -1,6 +1,7 @@
 import Drivers.Proto
 import PymocaVerif.Model.Connect
-/-! Driver for C09: runs the `Connect` model on the flat connect clauses of one generated model
+/-! Driver for C09: runs the `Connect` model (heap reading of `flow_connections`; equal to the value
+    reading the theorems are about by `heap_pass_eq_value_pass`) on the flat connect clauses of one generated model
     and reports the derived equations and the final connection sets. -/
 open Lean Drivers PymocaVerif.Connect
 
@@ -31,12 +32,12 @@ def handle (req : Json) : Except String Json := do
   | "connect.expand" => do
     let syms ← (← getArr req "flowSyms").toList.mapM (·.getStr?)
     let edges ← (← getArr req "edges").toList.mapM parseEdge
-    let pol ← match (req.getObjValAs? String "policy").toOption.getD "name" with
+    let pol ← match (req.getObjValAs? String "policy").toOption.getD "face" with
       | "name" => pure PopPolicy.byName
       | "face" => pure PopPolicy.byFace
       | p => throw s!"bad-policy {p}"
     let inp : Input := { flowSyms := syms, edges := edges, policy := pol }
-    match expand inp, finalSets inp with
+    match expandHeap inp, finalSetsHeap inp with
     | .ok eqs, .ok sets =>
       pure (Json.mkObj [("ok", true), ("raised", Json.null),
         ("eqs", Json.arr (eqs.map eqnJson).toArray),
